@@ -327,6 +327,36 @@ def run(R):
         R.counterexample('other-grammars', 'extending-grammar-alters-parent', {'step': 'Grammar(child extends base)'}, before, mid)
     if after != before:
         R.counterexample('other-grammars', 'name-reuse-alters-existing-module', {'step': 'Grammar with the same name'}, before, after)
+    # ---- entry points of a parameterised class: C.parse(args)(text) depends on THESE arguments only, whatever equal-looking
+    # arguments earlier calls on the module were given (1 / True / 1.0, tuples of them, equal strings built apart)
+    TAGGED = 'class Tagged(tag) { word: /[a-z]+/; t: `tag`; ty: `type(tag).__name__` }\nclass Counted(n, unit) { items: "x"{n}; u: `unit` }\nstart = "z"\n'
+    ARGS = [(1,), (True,), (1.0,), ((0, 'a'),), ((False, 'a'),), ('ab',), (''.join(['a', 'b']),), (0,), (False,), (None,), ((),), (frozenset(),)]
+    CARGS = [(2, 0), (2, False), (True, 1), (1, True), (1, 1.0), (2, 0.0)]
+    tref = {}
+
+    def tcall(g, a, counted):
+        try:
+            return repr((g.Counted.parse(*a)('xxx', 0, False) if counted else g.Tagged.parse(*a)('ab')))
+        except Exception as e:                  # noqa
+            return 'exception ' + type(e).__name__
+    for a in ARGS:
+        tref[('t', repr(a))] = tcall(Grammar(TAGGED), a, False)
+    for a in CARGS:
+        tref[('c', repr(a))] = tcall(Grammar(TAGGED), a, True)
+    for rounds in range(6 if quick else 60):
+        g = Grammar(TAGGED)
+        seq = [('t', a) for a in ARGS] + [('c', a) for a in CARGS]
+        rnd.shuffle(seq)
+        for i, (kind, a) in enumerate(seq):
+            got = tcall(g, a, kind == 'c')
+            R.count('class-entry-history', (rounds, i, kind, repr(a)), nontrivial=i > 0)
+            if got != tref[(kind, repr(a))]:
+                R.counterexample('class-entry-history', 'outcome-depends-on-earlier-calls',
+                                 {'grammar': TAGGED, 'earlier': [repr(x) for x in seq[:i]], 'call': ('Counted' if kind == 'c' else 'Tagged') + '.parse' + repr(a)},
+                                 tref[(kind, repr(a))], got)
+                break
+        else:
+            R.traces += 1
     # ---- sequences of constructions in which a name is used again ----
     # (1) parent P, child C, another description under P's name, the SAME text of C again: the second C is built on
     #     the new P (what `extends P` denotes when it is compiled), the first C stays as it was;
